@@ -28,6 +28,8 @@ pub struct Ctx {
     counters: BTreeMap<String, u64>,
     violations: u64,
     per_sig: BTreeMap<String, u32>,
+    /// scratch contexts (used while minimising a witness) record but do not print
+    pub quiet: bool,
 }
 
 pub fn json_str(s: &str) -> String {
@@ -64,6 +66,7 @@ impl Ctx {
             counters: BTreeMap::new(),
             violations: 0,
             per_sig: BTreeMap::new(),
+            quiet: false,
         }
     }
 
@@ -143,7 +146,7 @@ impl Ctx {
         self.violations += 1;
         let n = self.per_sig.entry(sig.to_string()).or_insert(0);
         *n += 1;
-        if *n <= 3 {
+        if *n <= 3 && !self.quiet {
             println!(
                 "@@{{\"t\":\"viol\",\"prop\":{},\"monitor\":{},\"sig\":{},\"witness\":{}}}",
                 json_str(&self.property),
@@ -162,6 +165,19 @@ impl Ctx {
             self.violation(sig, witness());
         }
         cond
+    }
+
+    /// a silent context for re-executions (witness minimisation)
+    pub fn scratch(&self) -> Ctx {
+        let mut c = Ctx::new(&self.property, &self.monitor, self.tier, self.seed, self.shard, self.nshards);
+        c.quiet = true;
+        c
+    }
+    pub fn has_sig(&self, sig: &str) -> bool {
+        self.per_sig.contains_key(sig)
+    }
+    pub fn sigs(&self) -> Vec<String> {
+        self.per_sig.keys().cloned().collect()
     }
 
     pub fn finish(&self) {
